@@ -123,7 +123,28 @@ def _unbrace(src):
     return '\n'.join(out), k
 
 
-TRANSFORMS = {'noop': (_noop, 'no-op statements `(void)0;` inserted at the top of blocks'),
+_OPND = r'[A-Za-z_][\w]*(?:(?:\.|->)[A-Za-z_]\w*)*(?:\(\))?|\d+[uUlL]*'
+_CMP = re.compile(r'(?:(?<=\()|(?<=&& )|(?<=\|\| )|(?<=return ))(?P<a>' + _OPND + r') (?P<op><=|>=|==|!=|<|>) (?P<b>' + _OPND + r')(?=\)| &&| \|\||;)')
+_MIR = {'<': '>', '>': '<', '<=': '>=', '>=': '<=', '==': '==', '!=': '!='}
+
+
+def _mirror(src):
+    """Simple comparisons in if / while / return lines written the other way round (`a < b` -> `b > a`)."""
+    out, k = [], 0
+    for line in src.split('\n'):
+        st = line.strip()
+        if st.startswith(('if (', '} else if (', 'while (', 'return ')) and 'template' not in line and '<<' not in line and '>>' not in line \
+                and 'static_cast<' not in line and 'std::' not in line and '"' not in line and "'" not in line:
+            new, c = _CMP.subn(lambda m: '%s %s %s' % (m.group('b'), _MIR[m.group('op')], m.group('a')), line)
+            if c:
+                k += c
+                line = new
+        out.append(line)
+    return '\n'.join(out), k
+
+
+TRANSFORMS = {'mirrored': (_mirror, 'comparisons written the other way round (`a < b` -> `b > a`)'),
+              'noop': (_noop, 'no-op statements `(void)0;` inserted at the top of blocks'),
               'unbraced': (_unbrace, 'single-statement if/for/while blocks with their braces dropped')}
 
 
